@@ -18,7 +18,9 @@ class AnchorError(Exception):
 
 FUNCS1 = {"np.exp": "Real.exp", "np.log": "Real.log", "np.sqrt": "Real.sqrt", "math.exp": "Real.exp",
           "math.log": "Real.log", "math.sqrt": "Real.sqrt", "float": "", "np.float64": "", "np.abs": "abs", "abs": "abs",
-          "np.cbrt": "CBRT", "np.expm1": "EXPM1", "np.log1p": "LOG1P"}
+          "np.cbrt": "CBRT", "np.expm1": "EXPM1", "np.log1p": "LOG1P",
+          "np.cos": "Real.cos", "math.cos": "Real.cos", "np.floor": "FLOOR", "math.floor": "FLOOR"}
+CONSTS = {"np.pi": "Real.pi", "math.pi": "Real.pi"}
 
 
 def dotted(node):
@@ -101,6 +103,8 @@ class Anchors:
                 fr = Fraction(repr(v))
                 return f"(({fr.numerator} : ℝ) / {fr.denominator})" if fr.denominator != 1 else f"({fr.numerator} : ℝ)"
             raise AnchorError(f"constant {v!r}")
+        if isinstance(e, ast.Attribute) and dotted(e) in CONSTS:
+            return CONSTS[dotted(e)]
         if isinstance(e, ast.UnaryOp):
             if isinstance(e.op, ast.USub):
                 return f"(-{self.to_lean(e.operand, env)})"
@@ -113,6 +117,8 @@ class Anchors:
                     return f"({a} ^ {e.right.value})"
                 return f"(Real.rpow {a} {self.to_lean(e.right, env)})"
             b = self.to_lean(e.right, env)
+            if isinstance(e.op, ast.Mod):       # Python float `a % b` = a - b * floor(a / b)
+                return f"({a} - {b} * ((⌊{a} / {b}⌋ : ℤ) : ℝ))"
             op = {ast.Add: "+", ast.Sub: "-", ast.Mult: "*", ast.Div: "/"}.get(type(e.op))
             if op is None:
                 raise AnchorError(f"operator {type(e.op).__name__}")
@@ -132,6 +138,8 @@ class Anchors:
                     return f"(Real.rpow {x} (1 / 3))"
                 if f == "abs":
                     return f"|{x}|"
+                if f == "FLOOR":
+                    return f"((⌊{x}⌋ : ℤ) : ℝ)"
                 return f"({f} {x})"
             if name in ("max", "min", "np.maximum", "np.minimum") and len(e.args) >= 2 and not e.keywords:
                 f = "max" if "max" in name else "min"
